@@ -36,7 +36,9 @@ class C05(Check):
     rule = ('CIA archives from an independent builder: certificate/ticket/TMD/meta sizes covering every residue mod 64, '
             '1-5 contents (NCCHs with distinct KeyY / crypto method so a shared engine would be visible), presence '
             'bitmaps incl. content indices >= 8 (second index byte) and indices the TMD lacks, encrypted/plain '
-            'flags, common-key index 0-5, retail/dev, start offset 0 or inside a larger file; every section and '
+            'flags, common-key index 0-5, retail/dev, start offset 0 or inside a larger file, 0-4 tickets with other common-key '
+            'indices loaded into the same engine beforehand; per case one retail and one dev engine walking through 3-9 tickets '
+            'whose indices come from a pool of 2-3 (returns to an earlier index with others in between); every section and '
             'content view read at random (offset, length); nested readers opened and read in random interleaved '
             'order; non-trivial = always')
     trusted_base = [
@@ -55,12 +57,15 @@ class C05(Check):
         n = rng.randint(1, 5)
         idxs = sorted(rng.sample([0, 1, 2, 3, 7, 8, 9, 15, 16, 0x123, 0xFFFF], n))
         present = [c for c in idxs if rng.chance(0.75)] or [idxs[0]]
+        ck = rng.pick([0, 1, 2, 3, 4, 5])
         return {'seed': rng.getrandbits(32), 'idxs': idxs, 'present': present, 'enc': [int(rng.chance(0.7)) for _ in idxs],
-                'ck': rng.pick([0, 1, 2, 3, 4, 5]), 'dev': int(rng.chance(0.25)),
+                'ck': ck, 'dev': int(rng.chance(0.35)),
                 'sizes': [rng.pick([0, 1, 63, 64, 65, 0xA00, rng.randint(0, 300)]) for _ in range(3)],
                 'ticket_size': rng.pick([0x350, 0x350, 0x2AC, 0x2B0 + rng.randrange(64)]),
                 'start': rng.pick([0, 0, 0x40, 0x1234]), 'bad_index': rng.pick([None, None, None, 5, 0x20]),
                 'tamper': rng.pick([None, None, None, 'magic', 'tmd']),
+                # tickets the SAME engine loaded before this archive (common-key index of each): the title key must not depend on them
+                'prior': [rng.pick([0, 0, ck, ck, 1, 2, 3, 4, 5]) for _ in range(rng.randint(1, 4))] if rng.chance(0.6) else [],   # histories that return to the archive's own index matter
                 # contents that are not NCCHs (sizes: every multiple of 16, aligned to 64 or not), read with load_contents=False
                 'raw': [rng.pick([0x10, 0x30, 0x40, 0x50, 0x90, 0x1F0, 0x200, 0x230]) for _ in idxs] if rng.chance(0.3) else None}
 
@@ -107,10 +112,16 @@ class C05(Check):
         base = io.BytesIO(file_bytes)
         base.seek(start)
         eng = e.CryptoEngine(dev=dev)
+        prior_tickets = []
+        for pck in case.get('prior', []):
+            pt = ciabuild.build_ticket(rng.rbytes(16), bytes.fromhex('00040000') + rng.rbytes(4), pck, dev)
+            prior_tickets.append(pt)
+            eng.load_from_ticket(pt)
         mon, key = [], None
         outs, models = [], []
         info_d = {'contents:%s' % ('raw' if case.get('raw') else 'ncch'): 1, 'n:%d' % len(case['idxs']): 1, 'dev:%d' % dev: 1, 'ck:%d' % case['ck']: 1,
-                  'tamper:%s' % case['tamper']: 1, 'badidx:%s' % bool(extra): 1}
+                  'tamper:%s' % case['tamper']: 1, 'badidx:%s' % bool(extra): 1,
+                  'tickets loaded before:%d' % len(case.get('prior', [])): 1}
         rd = None
         try:
             rd = CIAReader(base, crypto=eng, dev=dev, closefd=False, load_contents=not raw)
@@ -120,7 +131,8 @@ class C05(Check):
                         ','.join(f'{r.id}:{r.cindex}:{int(r.type)}:{r.size}' for r in rd.content_info))
         except Exception as ex:  # noqa
             outs.append('e:' + exc_name(ex))
-        models.append(drv.ask(('cia-open', file_bytes, start, int(dev), blob)))
+        models.append(drv.ask(('cia-open', file_bytes, start, int(dev), blob, tuple(prior_tickets)) if prior_tickets else
+                              ('cia-open', file_bytes, start, int(dev), blob)))
         wf = case['tamper'] is None and not extra
         if wf and rd is None:
             mon.append(f'well-formed CIA rejected: {outs[0]}')
@@ -201,6 +213,36 @@ class C05(Check):
                 if nested._crypto is eng or any(nested._crypto is rd.contents[o]._crypto for o in case['present'] if o != c):
                     mon.append(f'content {c} shares its crypto engine with another reader')
                     key = 'cia.isolation'
+        # one engine of each flavour going through a list of tickets (a ticket.db walk): indices drawn from a small pool so that
+        # the walk keeps RETURNING to an index it used before, with other indices (dev: the directly installed index-0 key) between
+        for wdev in (False, True):
+            pool = rng.sample([0, 1, 2, 3, 4, 5], rng.pick([2, 2, 3]))
+            if rng.chance(0.5) and 0 not in pool:
+                pool[0] = 0
+            walk = [rng.pick(pool) for _ in range(rng.randint(3, 9))]
+            weng = e.CryptoEngine(dev=wdev)
+            wtoks, wtickets = [], []
+            for wck in walk:
+                wtk, wtid = rng.rbytes(16), bytes.fromhex('00040000') + rng.rbytes(4)
+                wt = ciabuild.build_ticket(wtk, wtid, wck, wdev, size=rng.pick([0x350, 0x2AC]))
+                wtickets.append(wt)
+                try:
+                    weng.load_from_ticket(wt)
+                    got = weng.key_normal.get(0x40)
+                    wtoks.append(got.hex() if got is not None else 'none')
+                    if got != wtk and not mon:
+                        mon.append(f'ticket walk {walk} ({"dev" if wdev else "retail"}): title key of the ticket with common-key index '
+                                   f'{wck} at step {len(wtoks) - 1} differs from the packed one')
+                        key = 'cia.titlekey'
+                except Exception as ex:  # noqa
+                    wtoks.append('e:' + exc_name(ex))
+                    if not mon:
+                        mon.append(f'ticket walk {walk}: load_from_ticket raised {exc_name(ex)}')
+                        key = 'cia.titlekey'
+            outs.append(' '.join(wtoks))
+            models.append(drv.ask(('ticket-walk', int(wdev), e._b9_keyblob['dev' if wdev else 'retail'], tuple(wtickets))))
+            info_d['ticket walk returns to an earlier index'] = info_d.get('ticket walk returns to an earlier index', 0) + \
+                int(any(walk[i] == walk[j] and any(w != walk[i] for w in walk[i + 1:j]) for i in range(len(walk)) for j in range(i + 2, len(walk))))
         real = ' | '.join(outs)
         model = ' | '.join(models)
         return CaseResult(real, model, mon, sig=str(hash(real)), key=key, info=info_d)
